@@ -13,10 +13,11 @@ What is proved (for all inputs, no bounds), and about what:
   (Lemmas/EdGroup.lean), so they carry NO "denominator ≠ 0" hypothesis.
 * GROUP LAW. The affine law is closed on the curve, commutative, has neutral element (0, 1) and inverse (−x, y)
   (Lemmas/EdGroup.lean). Associativity is the classical theorem and is not re-proved.
-* SCALAR MULTIPLICATIONS. Every routine of Model/EdMul.lean returns k • P (k • P + m • Q) in any additive commutative
-  group whenever it does not reject the scalar, and the rejection domain is characterised exactly (Lemmas/EdMul.lean).
-  The guards (scalar fits the fixed-size recoding array / the precomputed table) are forced by the code: without them
-  the statements are FALSE for the library (findings C17-F1, C17-F2) — the routines never reduce k modulo the group order.
+* SCALAR MULTIPLICATIONS. Every routine of Model/EdMul.lean is total and returns k • P (k • P + m • Q) for EVERY integer k
+  (and m), in any additive commutative group, for base points killed by the group order r < 2^RLC_FP_BITS: the routines
+  reduce the scalar modulo r first, like the ep_* originals (since the /repo fixes of findings C17-F1/F2/F5; before them
+  the statements needed the guard "the scalar fits the fixed-size recoding array / table" and were false without it).
+  ed_mul_basic and ed_mul_monty do not reduce and are right for every k on every point (Lemmas/EdMul.lean).
 * ENCODINGS. ed_read_bin accepts only curve points in canonical form, decode ∘ encode = id on curve points,
   encode ∘ decode = id except on the two redundant forms of the format (Lemmas/EdConv.lean).
 Hashing to the curve is compared on every run with the RFC 9380 construction of Spec/Edwards.lean (class C).
@@ -122,12 +123,24 @@ theorem sub_projc (cv : EdC F) (hc : Complete cv) (r p q : EPt F) (x1 y1 x2 y2 :
   obtain ⟨d1, d2⟩ := hc.dens h1 (onCurve_neg h2)
   exact (sub_projc_correct cv r p q x1 y1 x2 y2 hp hq hb d1 d2).1
 
-/-- ed_sub_extnd in the extended-coordinate build (in the other builds it is wrong: finding C17-F6) -/
+/-- ed_sub_extnd in the extended-coordinate build -/
 theorem sub_extnd (cv : EdC F) (hc : Complete cv) (r p q : EPt F) (x1 y1 x2 y2 : F)
     (hp : RepT p x1 y1) (hq : RepT q x2 y2) (hb : BasicZ1 q) (h1 : OnCurve cv x1 y1) (h2 : OnCurve cv x2 y2) :
     RepT (Ed.ed_sub_extnd fieldOps cv r p q) (addX cv.d x1 y1 (-x2) y2) (addY cv.a cv.d x1 y1 (-x2) y2) := by
   obtain ⟨d1, d2⟩ := hc.dens h1 (onCurve_neg h2)
   exact (sub_extnd_correct cv r p q x1 y1 x2 y2 hp hq hb d1 d2).1
+
+/-- ed_sub_extnd in the builds without the fourth coordinate (repaired finding C17-F6) -/
+theorem sub_extnd_prj (cv : EdC F) (hc : Complete cv) (r p q : EPt F) (x1 y1 x2 y2 : F)
+    (hp : RepT p x1 y1) (hq : RepT q x2 y2) (hb : BasicZ1 q) (h1 : OnCurve cv x1 y1) (h2 : OnCurve cv x2 y2) :
+    RepT (EdP.ed_sub_extnd fieldOps cv r p q) (addX cv.d x1 y1 (-x2) y2) (addY cv.a cv.d x1 y1 (-x2) y2) := by
+  obtain ⟨d1, d2⟩ := hc.dens h1 (onCurve_neg h2)
+  exact (sub_extnd_correct_prj cv r p q x1 y1 x2 y2 hp hq hb d1 d2).1
+
+/-- ed_neg_basic of a normalised point: a normalised representation of −P (repaired finding C17-F7: z is copied) -/
+theorem neg_basic (cv : EdC F) (r p : EPt F) (x y : F) (hc : p.coord = .basic) (hp : Rep p x y) (hb : BasicZ1 p) :
+    Rep (Ed.ed_neg_basic fieldOps cv r p) (-x) y ∧ BasicZ1 (Ed.ed_neg_basic fieldOps cv r p) :=
+  neg_basic_rep cv r p x y hc hp hb
 
 /-- ed_norm: affine coordinates of the denoted point, z = 1, T = xy -/
 theorem norm (cv : EdC F) (r p : EPt F) (x y : F) (hp : RepT p x y) (hb : BasicZ1 p) :
@@ -157,59 +170,51 @@ theorem law_comm (cv : EdC F) (x1 y1 x2 y2 : F) :
     addX cv.d x1 y1 x2 y2 = addX cv.d x2 y2 x1 y1 ∧ addY cv.a cv.d x1 y1 x2 y2 = addY cv.a cv.d x2 y2 x1 y1 :=
   add_comm_law cv.a cv.d x1 y1 x2 y2
 
-/-! ### scalar multiplications: every routine returns [k]P (k·P + m·Q), in any additive commutative group -/
+/-! ### scalar multiplications: every routine returns [k]P (k·P + m·Q) for every integer k, in any additive commutative group -/
 section Mul
 open Relic.Model Relic.Model.MulAlg Relic.Model.EdMul
 
 variable {G : Type} [AddCommGroup G]
 
-/-- ed_mul_basic and ed_mul_monty: every integer k (they never reject) -/
+/-- ed_mul_basic and ed_mul_monty: every integer k, every point (no reduction, recoding sized by the scalar) -/
 theorem mul_basic_monty (isO : G → Bool) (hO : IsOSound isO) (p : G) (k : ℤ) :
-    (∃ r, mulBasic gops isO p k = some r) ∧ (∀ r, mulBasic gops isO p k = some r → r = k • p) ∧
-    (∀ r, mulMonty gops isO p k = some r → r = k • p) :=
-  ⟨Option.isSome_iff_exists.1 (mulBasic_total isO p k), fun r h => mulBasic_correct isO hO p k r h,
-    fun r h => mulMonty_correct isO hO p k r h⟩
+    mulBasic gops isO p k = some (k • p) ∧ mulMonty gops isO p k = some (k • p) :=
+  ⟨mulBasic_correct isO hO p k, mulMonty_correct isO hO p k⟩
 
-/-- ed_mul_lwnaf, ed_mul_slide, ed_mul_fix_lwnaf: [k]P for every k they accept, and they reject exactly the scalars longer
-    than RLC_FP_BITS (RLC_FP_BITS + 1 for slide) bits.
-    FULL statement "for all k" is false for the code — finding C17-F1: `edm lwnaf 0 G 2^255+1` → ERR_NO_BUFFER. -/
-theorem mul_windowed_partial (isO : G → Bool) (hO : IsOSound isO) (par : Par) (hw : 2 ≤ par.width) (hd : 2 ≤ par.depth)
-    (p : G) (k : ℤ) :
-    (∀ r, mulLwnaf gops isO par p k = some r → r = k • p) ∧
-    (mulLwnaf gops isO par p k = none ↔ (¬ (k = 0 ∨ isO p = true) ∧ par.fpBits < Rec.bitLen k.natAbs)) ∧
-    (∀ r, EdMul.mulSlide gops isO par p k = some r → r = k • p) ∧
-    (EdMul.mulSlide gops isO par p k = none ↔ (¬ (k = 0 ∨ isO p = true) ∧ par.fpBits + 1 < Rec.bitLen k.natAbs)) ∧
-    (∀ r, mulFixLwnaf gops par p k = some r → r = k • p) ∧
-    (mulFixLwnaf gops par p k = none ↔ par.fpBits < Rec.bitLen k.natAbs) :=
-  ⟨fun r h => mulLwnaf_correct isO hO par hw p k r h, mulLwnaf_none_iff isO par p k,
-    fun r h => mulSlide_correct isO hO par (by omega) p k r h, mulSlide_none_iff isO par p k,
-    fun r h => mulFixLwnaf_correct par hd p k r h, mulFixLwnaf_none_iff par p k⟩
+/-- ed_mul_lwnaf, ed_mul_slide, ed_mul_lwreg on the prime-order subgroup: total, and [k]P for EVERY integer k (longer than r,
+    negative, multiples of r, … included) -/
+theorem mul_variable_base (isO : G → Bool) (hO : IsOSound isO) (par : Par) (hok : par.Ok) (hw : 3 ≤ par.width)
+    (p : G) (hp : (par.ord : ℤ) • p = 0) (k : ℤ) :
+    mulLwnaf gops isO par p k = some (k • p) ∧ EdMul.mulSlide gops isO par p k = some (k • p) ∧
+    mulLwreg gops isO par p k = some (k • p) :=
+  ⟨mulLwnaf_correct isO hO par hok (by omega) p hp k, mulSlide_correct isO hO par hok (by omega) p hp k,
+    mulLwreg_correct isO hO par hok hw p hp k⟩
 
-/-- ed_mul_lwreg, ed_mul_fix_basic, ed_mul_fix_combs: [k]P for |k| below the size the recoding / the table was made for.
-    FULL statement "for all k" is false for the code — finding C17-F2: `edm fix_basic 0 G 2^253+1`,
-    `edm fix_combs 0 G 2^255+1`, `edm lwreg 0 G 2^256+1` return wrong points silently. -/
-theorem mul_table_partial (isO : G → Bool) (hO : IsOSound isO) (par : Par) (hw : 3 ≤ par.width) (hd : 0 < par.depth)
-    (p : G) (k : ℤ) :
-    (k.natAbs ||| 1 < 2 ^ par.fpBits → ∀ r, mulLwreg gops isO par p k = some r → r = k • p) ∧
-    (k.natAbs < 2 ^ par.ordBits → ∀ r, EdMul.mulFixBasic gops par p k = some r → r = k • p) ∧
-    (k.natAbs < 2 ^ (par.depth * ((par.ordBits + par.depth - 1) / par.depth)) →
-      ∀ r, mulFixCombs gops par p k = some r → r = k • p) :=
-  ⟨fun hk r h => mulLwreg_correct isO hO par hw p k r hk h, fun hk r h => mulFixBasic_correct par p k r hk h,
-    fun hk r h => mulFixCombs_correct par hd p k r hk h⟩
+/-- ed_mul_fix_basic, ed_mul_fix_lwnaf, ed_mul_fix_combs (hence ed_mul_fix / ed_mul_gen of those methods): total, [k]P for every k -/
+theorem mul_fixed_base (par : Par) (hok : par.Ok) (hd : 2 ≤ par.depth) (p : G) (hp : (par.ord : ℤ) • p = 0) (k : ℤ) :
+    EdMul.mulFixBasic gops par p k = some (k • p) ∧ mulFixLwnaf gops par p k = some (k • p) ∧
+    mulFixCombs gops par p k = some (k • p) :=
+  ⟨mulFixBasic_correct par hok p hp k, mulFixLwnaf_correct par hok hd p hp k, mulFixCombs_correct par hok (by omega) p hp k⟩
 
-/-- ed_mul_sim_basic / trick / inter / joint: k·P + m·Q whenever they return a point (`mul` = the configured ed_mul, used by
-    the early exits) -/
-theorem mul_sim (isO : G → Bool) (hO : IsOSound isO) (par : Par) (hw : 2 ≤ par.width)
-    (mul : G → ℤ → Option G) (hmul : ∀ x j r, mul x j = some r → r = j • x) (p : G) (k : ℤ) (q : G) (m : ℤ) (r : G) :
-    (simBasic gops mul p k q m = some r → r = k • p + m • q) ∧
-    (EdMul.simTrick gops isO par mul p k q m = some r → r = k • p + m • q) ∧
-    (EdMul.simInter gops isO par mul p k q m = some r → r = k • p + m • q) ∧
-    (EdMul.simJoint gops isO par mul p k q m = some r → r = k • p + m • q) :=
-  ⟨simBasic_correct mul hmul p k q m r, simTrick_correct isO hO par hw mul hmul p k q m r,
-    simInter_correct isO hO par hw mul hmul p k q m r, simJoint_correct isO hO par mul hmul p k q m r⟩
+/-- ed_mul_sim_basic / trick / inter / joint and the generator-table branch of ed_mul_sim_gen: total, k·P + m·Q for all k, m
+    (`mul` = the configured ed_mul, used by the early exits) -/
+theorem mul_sim (isO : G → Bool) (hO : IsOSound isO) (par : Par) (hok : par.Ok) (hw : 2 ≤ par.width) (hd : 2 ≤ par.depth)
+    (mul : G → ℤ → Option G) (p : G) (k : ℤ) (q : G) (m : ℤ)
+    (hp : (par.ord : ℤ) • p = 0) (hq : (par.ord : ℤ) • q = 0)
+    (hmp : mul p k = some (k • p)) (hmq : mul q m = some (m • q)) :
+    simBasic gops mul p k q m = some (k • p + m • q) ∧
+    EdMul.simTrick gops isO par mul p k q m = some (k • p + m • q) ∧
+    EdMul.simInter gops isO par mul p k q m = some (k • p + m • q) ∧
+    EdMul.simJoint gops isO par mul p k q m = some (k • p + m • q) ∧
+    simPlainGen gops par p k q m = some (k • p + m • q) :=
+  ⟨simBasic_correct mul p k q m hmp hmq, simTrick_correct isO hO par hok hw mul p k q m hp hq hmp hmq,
+    simInter_correct isO hO par hok hw mul p k q m hp hq hmp hmq, simJoint_correct isO hO par hok mul p k q m hp hq hmp hmq,
+    simPlainGen_correct par hok hw hd p k q m hp hq⟩
 
-/-- non-vacuity on the integers with the constants of the 255-bit build -/
-example : mulLwnaf (gops : Ops ℤ) (fun x => x == 0) ⟨255, 4, 5, 253⟩ 1 (-153) = some (-153) := by decide
+/-- the hypotheses are satisfiable (ℤ/7ℤ is killed by 7 < 2^255) and the routines compute (−153 mod 7 = 1) -/
+example : (⟨255, 4, 5, 7⟩ : Par).Ok ∧ ((7 : ℕ) : ℤ) • (1 : ZMod 7) = 0 :=
+  ⟨⟨by decide, by norm_num⟩, by decide⟩
+example : mulLwnaf (gops : Ops ℤ) (fun x => x == 0) ⟨255, 4, 5, 7⟩ 1 (-153) = some 1 := by decide
 
 end Mul
 
